@@ -25,6 +25,7 @@
    "in order, exactly once" is a statement about the state. *)
 
 From Coq Require Import List NArith Bool Arith Ascii.
+From Martian.C04 Require Import Gen_Ret.
 Import ListNotations.
 
 Definition byte := ascii.
@@ -476,3 +477,35 @@ Definition connect_response (d : dial) : response :=
   end.
 
 Definition fail_ok (st : N) (warn : bool) : bool := N.eqb st 502 && warn.
+
+(* ------------------------------------------------------------------ *)
+(* After the tunnel: what handleLoop does with the client connection    *)
+(* ------------------------------------------------------------------ *)
+
+(* [Join] is the end of handleConnectRequest; its result goes to handleLoop
+   (proxy.go 232-275):  for { if err := p.handle(...); isCloseable(err) { return } }
+   with a deferred conn.Close().  Only a closeable result ends the loop and
+   releases the client connection; any other result makes the loop call
+   p.handle again, which reads THE NEXT HTTP REQUEST from the former tunnel
+   connection.  The four facts are read from proxy.go by harness/cmd/gen_c04
+   (Gen_Ret.v). *)
+Record after := mkAfter
+  { a_client_closed : bool;   (* the proxy closes the client connection *)
+    a_parses_more : bool }.   (* bytes the client writes after the tunnel's end are read as HTTP *)
+
+Definition after_tunnel (ret_errclose closeable loop_returns defers_close : bool) : after :=
+  if ret_errclose && closeable && loop_returns
+  then mkAfter defers_close false
+  else mkAfter false true.
+
+Definition after_tunnel_here : after :=
+  after_tunnel tunnel_returns_errClose errClose_is_closeable
+               loop_returns_on_closeable loop_defers_conn_close.
+
+(* what the client can do to find out: keep writing into the dead tunnel
+   ([wfail]: a write failed = connection closed by the proxy; [canary]: an
+   origin named in a request written there was contacted) *)
+Definition probe_ok (wfail canary : bool) : bool := wfail && negb canary.
+
+Definition probe_agrees (a : after) (wfail canary : bool) : bool :=
+  Bool.eqb wfail (a_client_closed a) && (negb canary || a_parses_more a).
